@@ -19,6 +19,7 @@
   exact-size input blocks), which compares every public tokener field after every call.
 -/
 import JsonC.Lemmas.TokenerStep
+import JsonC.Lemmas.TokenerScrub2
 
 namespace JsonC.Tokener
 open JsonC
@@ -249,6 +250,33 @@ theorem reachable_wf (lc : Libc) (t : Tok) (h : Reachable lc t) : WF t := by
 theorem stack_in_bounds (lc : Libc) (t : Tok) (h : Reachable lc t) : 1 ≤ t.stack.length ∧ t.stack.length ≤ t.maxDepth := by
   obtain ⟨top, rest, hs, hd, _, _, _⟩ := (reachable_wf lc t h).ex
   rw [hs]; simp; omega
+
+/-- no surrogate is pending outside the three `\\u` states, for every reachable tokener -/
+theorem reachable_hsInv (lc : Libc) (t : Tok) (h : Reachable lc t) : HsInv t := by
+  induction h with
+  | new d f t h => exact hsInv_new h
+  | parse t data hr ih => exact parseEx_hsInv lc t data (reachable_wf lc t hr) ih
+  | parseZ t str hr ih => exact parseExZ_hsInv lc t str (reachable_wf lc t hr) ih
+  | reset t _ _ => exact hsInv_reset t
+  | setFlags t f _ ih => exact hsInv_setFlags ih f
+
+/-- **a reset parser behaves exactly like a new one**: whatever happened to `t` before (any history,
+any leftover scratch state - `t` need not even be reachable), after `json_tokener_reset` every later
+sequence of calls returns, call by call, the status, value, end position (and absence of faults) that
+the same calls return on a tokener fresh from `json_tokener_new_ex` with the same depth and flags.
+(`Lemmas/TokenerScrub`: the fields reset does not clear - `pb`, `st_pos`, `is_double`, `ucs_char`,
+`quote_char` - are dead whenever a level is waiting for a value; `Eqv` is the simulation relation.) -/
+theorem reset_behaves_like_new (lc : Libc) (t n : Tok) (d : Int) (fl : Nat) (hn : Tokener.new d fl = some n)
+    (hd : t.maxDepth = d.toNat) (hf : t.flags = fl) (calls : List Bytes) :
+    runCalls lc (reset t) calls = runCalls lc n calls :=
+  reset_like_new_calls' lc t n d fl hn hd hf calls
+
+/-- the single-call form, with the resulting tokeners again equivalent -/
+theorem reset_behaves_like_new_one_call (lc : Libc) (t n : Tok) (d : Int) (fl : Nat) (hn : Tokener.new d fl = some n)
+    (hd : t.maxDepth = d.toNat) (hf : t.flags = fl) (data : Bytes) :
+    let f := parseEx lc (reset t) data; let g := parseEx lc n data
+    f.err = g.err ∧ f.value = g.value ∧ f.offset = g.offset ∧ f.stuck = g.stuck ∧ f.fault = g.fault ∧ Eqv f.tok g.tok :=
+  reset_like_new' lc t n d fl hn hd hf data
 
 /-- non-vacuity: a depth-3 strict tokener fed a chunked document is reachable, and the model computes
 its (successful) result -/
